@@ -259,8 +259,10 @@ func evaluateNoUnionInstanceMethod(
 		}
 
 		if err != nil {
+			// also a rejected call leaves a value behind: a copy, never the
+			// method table entry itself
 			m.parser.SetLastEvaluatedT(
-				calculateExecutionType(m, methodT, evaluatedArgs),
+				calculateExecutionType(m, methodT.DeepCopy(), evaluatedArgs),
 			)
 
 			return err
